@@ -1,0 +1,6 @@
+//go:build !verif
+
+package opshell
+
+// verifPause is a no-op unless built with -tags verif.
+func verifPause(string) {}
